@@ -15,6 +15,7 @@ import (
 	"github.com/semafind/semadb/models"
 	"semaverif/fw"
 	"semaverif/gen"
+	"semaverif/httpx"
 	"semaverif/model"
 )
 
@@ -250,7 +251,13 @@ func newSingleNode(dir string, port int, maxShardPoints int64, maxShardSize int6
 
 func c15Live(res *fw.CaseResult, rng *rand.Rand, c fw.Case, env *fw.Env) {
 	perShard := int64(1 + rng.IntN(50))
-	node, err := newSingleNode(filepath.Join(env.Dir, "node"), 19000+c.Idx, perShard, 1<<40)
+	ports, perr := httpx.FreePorts(1)
+	if perr != nil {
+		res.Note("ports: %v", perr)
+		res.Inconclusive++
+		return
+	}
+	node, err := newSingleNode(filepath.Join(env.Dir, "node"), ports[0], perShard, 1<<40)
 	if err != nil {
 		res.Note("node: %v", err)
 		res.Inconclusive++
